@@ -54,6 +54,10 @@ def directory():
         secs = [{'t': 'UD', 'comp': 0xABCD, 'payload': '%02x' % i}]
         if m['code']:
             secs.insert(0, {'t': 'PS', 'ascii': m['code'].ljust(32)})
+        if i % 5 == 2 or not m['code']:
+            # a section without payload in front of (or instead of) the primary SRC: the summary has to step over it
+            secs.insert(0, {'t': 'UD', 'comp': 0x1234, 'payload': ''})
+            secs.insert(1, {'t': 'ZZ', 'payload': ''})
         spec = {'plid': m['plid'], 'eid': m['eid'], 'obmc': m['obmc'], 'uh': m['uh'], 'sections': secs}
         name = '20230715%05d_%08X' % (12 + i * 7, m['eid'])
         out.append((name, spec, m))
